@@ -64,6 +64,15 @@ def synthetic(rng, infeasible=False):
         A = sp.vstack([A, sp.csr_matrix(a.reshape(1, -1))]).tolil()
         b = np.append(b, mx + 1. + rng.uniform(0, 3)); ct += 'L'
     c = np.round(rng.normal(0, 3, n), 1)
+    one_sided = []
+    if not infeasible and rng.random() < 0.15:
+        # variables with ONE infinite bound (an unlimited purchase: max_cap = inf); the cost sign keeps the problem bounded
+        for j in [int(q) for q in rng.permutation(np.where(~isb)[0])[:2]]:
+            if rng.random() < 0.5:
+                u[j] = np.inf; c[j] = abs(c[j]) + 0.1
+            else:
+                l[j] = -np.inf; c[j] = -abs(c[j]) - 0.1
+            one_sided.append(j)
     # mapping with duplicated rows (several rows per variable), flags consistent per variable
     rows = []
     for j in range(n):
@@ -77,7 +86,7 @@ def synthetic(rng, infeasible=False):
         mp = mp.drop(columns=['bool'])
     op = OptimProblem(c=c, l=l.astype(float), u=u.astype(float), A=A, b=b, cType=ct, mapping=mp)
     desc = {'c': c.tolist(), 'l': l.tolist(), 'u': u.tolist(), 'A': np.asarray(A.todense()).round(3).tolist(), 'b': np.round(b, 4).tolist(),
-            'cType': ct, 'bool': np.where(isb)[0].tolist(), 'map_index': [int(i) for i in mp.index], 'boolean_fixed_to_fraction': frac_fixed}
+            'cType': ct, 'bool': np.where(isb)[0].tolist(), 'map_index': [int(i) for i in mp.index], 'boolean_fixed_to_fraction': frac_fixed, 'one_sided_infinite_bounds': one_sided}
     return op, desc, mip
 
 
